@@ -73,7 +73,7 @@ def generate(seed: int, tier: str = "quick") -> dict:
         frames = common.gen_mixed_frames(r_dev, r_lnk, n, cfg, pre)
     if seed % GIANT_EVERY == GIANT_EVERY - 1:
         # a frame at the limits of the 16-bit length field (payload 65535 / 65534 / 65279 bytes) between ordinary ones
-        nbig = r_cfg.choice((0xFFFF, 0xFFFF, 0xFFFE, 0xFEFF, 0x8000))
+        nbig = r_cfg.choice((0xFFFF, 0xFFFF, 0xFFFE, 0xFEFF, 0x8000)) if r_cfg.random() < 0.5 else device.block_length(r_dev)
         big = W.ubx_frame(r_cfg.choice((0x02, 0x66)), r_cfg.choice((0x13, 0x77)), device.payload_bytes(r_dev, nbig, r_cfg.choice(("zeros", "random"))))
         frames = frames[:2]
         frames.insert(r_cfg.randrange(len(frames) + 1), {"kind": "ubx", "hex": big.hex(), "faults": [], "note": f"giant ubx frame payload {nbig}"})
